@@ -1108,6 +1108,12 @@ decLoop:
 		if !hasBalancedBlocks(dec.Value) {
 			continue
 		}
+		// what is written back if the declaration is accepted: as the author
+		// wrote it, with the "!important" the parser took off the value
+		written := dec.Property + ": " + dec.Value
+		if dec.Important {
+			written += " !important"
+		}
 		tempProperty := asciiLower(dec.Property)
 		// (decode first: an escape may stand for an upper-case letter)
 		tempValue := asciiLower(removeUnicode(dec.Value))
@@ -1122,17 +1128,17 @@ decLoop:
 			for _, sp := range spl {
 				if sp.handler != nil {
 					if sp.handler(tempValue) {
-						clean = append(clean, dec.Property+": "+dec.Value)
+						clean = append(clean, written)
 						continue decLoop
 					}
 				} else if len(sp.enum) > 0 {
 					if stringInSlice(tempValue, sp.enum) {
-						clean = append(clean, dec.Property+": "+dec.Value)
+						clean = append(clean, written)
 						continue decLoop
 					}
 				} else if sp.regexp != nil {
 					if sp.regexp.MatchString(tempValue) {
-						clean = append(clean, dec.Property+": "+dec.Value)
+						clean = append(clean, written)
 						continue decLoop
 					}
 				}
@@ -1142,17 +1148,17 @@ decLoop:
 			for _, sp := range spl {
 				if sp.handler != nil {
 					if sp.handler(tempValue) {
-						clean = append(clean, dec.Property+": "+dec.Value)
+						clean = append(clean, written)
 						continue decLoop
 					}
 				} else if len(sp.enum) > 0 {
 					if stringInSlice(tempValue, sp.enum) {
-						clean = append(clean, dec.Property+": "+dec.Value)
+						clean = append(clean, written)
 						continue decLoop
 					}
 				} else if sp.regexp != nil {
 					if sp.regexp.MatchString(tempValue) {
-						clean = append(clean, dec.Property+": "+dec.Value)
+						clean = append(clean, written)
 						continue decLoop
 					}
 				}
